@@ -226,7 +226,9 @@ ONE_SIDED = ['__x', 'y__', '__apply', 'total__', '_', '__', '____', '___', '__f_
 ALL_LISTED = ['__new__', '__init__', '__str__', '__del__', '__int__', '__float__', '__complex__', '__oct__', '__hex__', '__index__',
               '__trunc__', '__repr__', '__unicode__', '__hash__', '__nonzero__', '__dir__', '__sizeof__']
 TEXTS = ['comment_star', 'string_star', 'doc_star', 'doc_static', 'comment_static', 'doc_pedantic', 'comment_rk',
-         'comment_setter', 'deco_at', 'between_at']
+         'comment_setter', 'deco_at', 'between_at',
+         'doc_yield', 'comment_yield', 'string_yield', 'comment_async', 'doc_self', 'comment_classmethod', 'doc_return',
+         'doc_yield', 'comment_yield']
 
 
 def strip_iters(v, keep_top):
@@ -364,7 +366,7 @@ def gen_shape(rng, forced=None):
         c['via'] = rng.choice(['instance', 'sub_instance'])
     if kind in ('func', 'class_deco', 'method_direct') and c['mkind'] in ('plain', 'instance') and rng.random() < 0.15:
         c['async'] = True
-    if rng.random() < 0.2:
+    if rng.random() < 0.3:
         c['text'] = rng.choice(TEXTS)
     return c, kind
 
@@ -383,6 +385,15 @@ def gen_case(rng, stream, forced=None, focus=None):
         a, v = gen_ann_val(rng)
         params, vals = [{'name': 18, 'kind': 'pos', 'ann': a, 'default': None}], {18: v}
         c['prop_get_ret'] = ['cls', 'int']
+    if (c['mkind'] == 'instance' and c['style'] in ('class_deco', 'method_direct') and c.get('via') in ('instance', 'sub_instance')
+            and not c.get('self_kw') and kind != 'property' and focus is None and rng.random() < 0.2):
+        # the RECEIVER ITSELF is passed as the value of a parameter (a.link(a), g.absorb(other=g)): one positional parameter
+        # annotated Any / object, with or without a default; the keyword-only and ** parameters stay
+        keep = [p for p in params if p['kind'] not in ('pos', 'posonly', 'varpos')]
+        params = [{'name': 2, 'kind': 'pos', 'ann': rng.choice([['any'], ['cls', 'object']]),
+                   'default': rng.choice([None, ['int', 0], ['none']])}] + keep
+        vals[2] = RECV[c['via']]
+        c['recv_as_value'] = True
     c['params'] = params
     # return annotation and scripted body outcome
     ra, rv = gen_ann_val(rng)
@@ -396,7 +407,7 @@ def gen_case(rng, stream, forced=None, focus=None):
     kwargs, args = [], []
     named = [p for p in params if p['kind'] in ('pos', 'kwonly')]
     for p in named:
-        if p['default'] is None or rng.random() < 0.5:
+        if p['default'] is None or rng.random() < 0.5 or (c.get('recv_as_value') and p['name'] == 2):
             kwargs.append([p['name'], vals[p['name']]])
     vk = [p for p in params if p['kind'] == 'varkw']
     if vk:
@@ -469,6 +480,8 @@ def mutate_near(rng, c, kind, positional_style):
         return
     opts = ['kwval', 'kwval', 'result', 'positional', 'positional', 'default', 'star', 'varkw', 'nonconf_default_passed']
     rng.shuffle(opts)
+    if c.get('recv_as_value') and rng.random() < 0.7:
+        opts = ['positional'] + opts
     for o in opts:
         if o == 'kwval' and c['kwargs']:
             i = rng.randrange(len(c['kwargs']))
